@@ -4,6 +4,7 @@
 From Coq Require Import List ZArith Bool Lia Permutation.
 From GZ Require Import C16.Model C16.ProofsMap C16.ProofsCache C16.ProofsCacheLru.
 From GZ Require Import C16.ModelW C16.ProofsW C16.ProofsWClamp C16.Check.
+From GZ Require Import Lib.RollingWindowProofs.
 Import ListNotations.
 Open Scope Z_scope.
 
@@ -321,4 +322,19 @@ Proof.
   intros ct md ops seen. split; intros H; cbn [prop_ok agrees] in H; apply mcheck_true in H.
   - rewrite grun_map in H. exact H.
   - rewrite grun_sm in H. exact H.
+Qed.
+
+(* ------------------------------------------------------------------ *)
+(* Reduce as ONE read of the window.  The window theorems are about rw_reduce applied to one
+   window state: the code provides this by holding the read lock from the moment Reduce chooses
+   its buckets to its last callback (an Add of another goroutine waits).  What Check.prop_ok
+   accepts for a Reduce that overlaps Adds - the Reduce of the state before them, or after the
+   first j of them - contains what the code does (the state before). *)
+Theorem reduce_under_lock_is_a_one_state_view_proof : forall (size : nat) (iv t0 : Z) (ig : bool)
+    (h : list (Z * Z)) (now : Z) (adds : list (Z * Z)),
+  (1 <= size)%nat -> 0 < iv -> rw_mono t0 h -> rw_last_time t0 h <= now ->
+  In (rw_reduce (rw_run (rw_new size iv t0 ig) h) now) (one_state_views size iv t0 ig h now adds).
+Proof.
+  intros size iv t0 ig h now adds Hs Hiv Hm Hl. destruct adds; left; unfold rw_reduce_spec; symmetry;
+    apply reduce_visits_last_size_intervals; assumption.
 Qed.
